@@ -56,7 +56,8 @@ HttpOk(st, ok, good) == IF st = 0 \/ (ok /\ st = good) \/ (~ok /\ Is4xx(st)) THE
 \* ("nu": the commands xs gives to scripts - what a script reads and writes through them is what the store holds:  *)
 \*  C06 names `.cat` / `.head` inside scripts, C12 the values crossing into nu and back)                           *)
 FrontFault == IF E.via = "cli" THEN {"C13", "C12"} ELSE IF E.via = "nu" THEN {"C06", "C12"} ELSE {"C13"}
-FrontEnd == IF E.via = "api" \/ E.same THEN {} ELSE FrontFault
+\* (status -3: what the front end printed does not parse as frames at all)
+FrontEnd == IF E.via = "api" THEN {} ELSE IF E.status = -3 \/ ~E.same THEN FrontFault ELSE {}
 
 ReEvict(h) == [h EXCEPT !.evictable = h.evictable \cup EvictableNow(h)]
 
